@@ -171,6 +171,15 @@ func checkC08(c *Ctx) {
 			}
 		}
 	}, func(o *coreObl) (string, bool) { return "R08.7", o.Rule == "R09.3" })
+	// "a completed ExpireAll is visible to every later Read": Read classifies by the entry's own E and the clock on every path
+	// (C07 R07.2); "a completed Write is visible …" until the entry has been expired for DeleteExpiredAfter: the janitor's
+	// boundary is now − DeleteExpiredAfter (C11 R11.1)
+	c.borrow("C07", func() {
+		for _, b := range backends {
+			c.c07Read(b)
+		}
+	}, func(o *coreObl) (string, bool) { return "R08.7", o.Rule == "R07.2" })
+	c.borrow("C11", func() { c.c11Boundary() }, func(o *coreObl) (string, bool) { return "R08.7", o.Rule == "R11.1" })
 }
 
 // c08RangeVarAddress: with the module's language version below go1.22 the variables of a range clause are shared by all iterations:
